@@ -357,6 +357,9 @@ fn stimulus_bfs(depth: usize) -> (u64, u64, Bad) {
                 seq.push(ev[code % ev.len()]);
                 code /= ev.len();
             }
+            if idx % 64 == 0 {
+                mc::watch::progress(|| format!("stim start={} seq={:?} (one of the 64 sequences from index {})", starts[si].0, seq, idx).replace(' ', ""));
+            }
             let r = mc::catch(|| {
                 let mut m = starts[si].1.clone();
                 let mut d = 0u64;
@@ -375,6 +378,7 @@ fn stimulus_bfs(depth: usize) -> (u64, u64, Bad) {
                 Err(p) => note(&mut bad, &p, format!("stim start={} seq={:?}", starts[si].0, seq).replace(' ', ""), format!("stimulus sequence from state '{}'", starts[si].0)),
             }
         }
+        mc::watch::idle();
         (trans, digests.len() as u64, bad)
     });
     let mut trans = 0;
@@ -441,7 +445,7 @@ pub fn run() {
     let limits_all = [Programsize::Size(255), Programsize::Size(3), Programsize::Auto];
     let (r2, e2, ends2, b2) = heads(2, &SIZES, &limits_all, 300);
     merge(&mut bad, b2);
-    let (r3, e3, ends3, b3) = if quick { (0, 0, [0; 3], Bad::new()) } else { heads(3, &[Stacksize::_16], &[Programsize::Size(255)], 200) };
+    let (r3, e3, ends3, b3) = if quick { (0, 0, [0; 3], Bad::new()) } else { heads(3, &SIZES, &[Programsize::Size(255)], 200) };
     merge(&mut bad, b3);
     // (b)
     let (nb, bb) = addresses();
